@@ -131,6 +131,20 @@ def genEval (seed n : Nat) (rootsFile : String) : IO Unit := do
       out.putStrLn s!"evalpair\t{posText p}\t{posText (mirrorPos p)}"
       k := k + 1
     | none => pure ()
+  -- positions reached by play, promotions and the capture of promoted pieces above all: the accumulators the
+  -- evaluation reads are then the ones carried move by move
+  let mut pr := Rng.ofSeed (seed + 733)
+  for i in List.range (n / 4 + 8) do
+    let (p1, tp) := if i % 3 == 0 then templatePos pr else
+      (let (a, b) := promoTemplate pr; (a, if hasBothKings b && Rules.legalPos b then some b else none))
+    let (p2, len) := p1.below 7
+    pr := p2
+    match tp with
+    | some start =>
+      let (p3, _, ms) := playout pr start (len + 1)
+      pr := p3
+      out.putStrLn s!"evalplay\t{posText start}\t{" ".intercalate (ms.map Move.text)}"
+    | none => pure ()
   -- the blend: a grid over (mg, eg, phase), phase beyond its nominal maximum included
   for mg in ([-32768, -30000, -2000, -1, 0, 1, 777, 2000, 30000, 32767] : List Int) do
     for eg in ([-32768, -30000, -1500, 0, 3, 1500, 30000, 32767] : List Int) do
@@ -230,6 +244,34 @@ def exchangePos (r : Rng) : Rng × Option Rules.Pos :=
   let p := if mir = 0 then p else mirrorPos p
   (r, if hasBothKings p && Rules.legalPos p then some p else none)
 
+/-- two like sliders (rooks or queens) reach one square, one of them while pinned to its king along the very
+    line it moves on (the pin does not forbid the move, so the other one's text needs its disambiguator) -/
+def pinnedLikePos (r : Rng) : Rng × Option Rules.Pos :=
+  let empty : Rules.RBoard := Vector.replicate 64 none
+  let (r, vertical) := r.below 2
+  let (r, a) := r.below 8          -- the line: file (vertical) or rank (horizontal) of king, pinned man and pinner
+  let (r, g) := r.below 8          -- where the second like piece stands on the crossing line
+  let (r, q) := r.below 2
+  let (r, x) := r.below 4
+  let x := x + 2                   -- crossing square at distance 2..5 from the king's end
+  let (r, capture) := r.below 3
+  let k : PieceKind := if q = 0 then .rook else .queen
+  let onLine (i : Nat) : Nat := if vertical = 0 then sqAt a i else sqAt i a   -- i along the line
+  let cross (j : Nat) : Nat := if vertical = 0 then sqAt j x else sqAt x j  -- j across, at height x
+  let b := empty.set! (onLine 0) (some ⟨.king, .white⟩)
+  let b := b.set! (onLine 1) (some ⟨k, .white⟩)
+  let pinnerAt := if capture = 0 then x else 7
+  let b := b.set! (onLine pinnerAt) (some ⟨if q = 0 then .rook else .queen, .black⟩)
+  let b := if g = a then b else putIfEmpty b (cross g) ⟨k, .white⟩
+  let (r, bk) := r.below 64
+  let b := putIfEmpty b bk ⟨.king, .black⟩
+  let (r, extra) := r.below 3
+  let (r, b) := scatter r b extra
+  let (r, mir) := r.below 2
+  let p : Rules.Pos := { board := b, player := .white, rights := Rights.none, ep := none, halfmove := 0, plies := 50 }
+  let p := if mir = 0 then p else mirrorPos p
+  (r, if hasBothKings p && Rules.legalPos p then some p else none)
+
 def genTactical (kind : String) (seed n : Nat) (rootsFile : String) : IO Unit := do
   let roots ← readLines rootsFile
   let out ← IO.getStdout
@@ -247,8 +289,9 @@ def genTactical (kind : String) (seed n : Nat) (rootsFile : String) : IO Unit :=
   let mut tries := 0
   while k < n / 2 && tries < 50 * n do
     tries := tries + 1
-    let (r1, which) := r.below 5
-    let (r2, p) := if which == 0 then templatePos r1 else if which < 3 then likePiecesPos r1 else exchangePos r1
+    let (r1, which) := r.below 6
+    let (r2, p) := if which == 0 then templatePos r1 else if which < 3 then likePiecesPos r1
+      else if which < 5 then exchangePos r1 else pinnedLikePos r1
     r := r2
     match p with
     | some p =>
@@ -382,6 +425,29 @@ def genGames (seed n : Nat) (rootsFile : String) : IO Unit := do
     let (r4, _, ms) := playout r3 start (len + 1)
     r := r4
     out.putStrLn s!"game\t{posText start}\t{" ".intercalate (ms.map Move.text)}"
+  -- a man that is not a pawn lands on the en-passant target square (nothing is captured there)
+  let mut k := 0
+  let mut tries := 0
+  while k < n / 6 + 2 && tries < 40 * n + 400 do
+    tries := tries + 1
+    let (r1, p) := epTemplate r
+    let (r2, extra) := scatter r1 p.board 3
+    r := r2
+    let p := { p with board := extra }
+    let (r3, mir) := r.below 2
+    r := r3
+    let p := if mir = 0 then p else mirrorPos p
+    if hasBothKings p && Rules.legalPos p then
+      match p.ep with
+      | some t =>
+        let onto := (Rules.legalMoves p).filter fun m =>
+          m.dst == t && ((Rules.at' p.board m.src).map (·.kind)) != some .pawn
+        for m in onto do
+          let (r4, _, ms) := playout r (Rules.apply p m) 3
+          r := r4
+          out.putStrLn s!"game\t{posText p}\t{" ".intercalate ((m :: ms).map Move.text)}"
+          k := k + 1
+      | none => pure ()
 
 /-- move-list texts: well-formed lists from playouts, then corrupted ones -/
 def genUciMoves (seed n : Nat) : IO Unit := do
